@@ -9,7 +9,8 @@ ID = "C25"
 THEOREMS = ["C25_int", "C25_int_default_base", "C25_int_min_refuted", "C25_ntoa_aton", "C25_aton_ntoa", "C25_ntop_pton_v4",
             "C25_ipv6_text", "C25_ntop_pton_v6", "C25_ipv4_mapped", "C25_entries", "C25_flatten",
             "C25_flatten_single_char_separator", "C25_flatten_bordered_separator_refuted", "C25_unix_from_to",
-            "C25_unix_to_from", "C25_unix_to_from_exact", "C25_hypotheses_nonvacuous", "C25_ipv6_nonvacuous",
+            "C25_unix_to_from", "C25_unix_to_from_exact", "C25_calendar_inverse", "C25_timestamp_text_layouts_partial",
+            "C25_hypotheses_nonvacuous", "C25_timestamp_text_nonvacuous", "C25_ipv6_nonvacuous",
             "C25_flatten_nonvacuous"]
 IMPORTS = ("From Coq Require Import String.\nFrom Coq Require Import List NArith ZArith.\n"
            "From VRL Require Import Base.Bytes Base.Value Base.Lit Model.ConvRes Model.IntText Model.Ip Model.Entries "
@@ -347,7 +348,12 @@ def gen_entries(rng, n):
         elif r < 0.6:
             x = gen.rand_value(rng, depth=2)     # arrays (integer keys: from_entries refuses), scalars
             cases.append(mk("entries", {"fn": "to_entries"}, {"fn": "from_entries"}, x))
-        elif r < 0.75:   # canonical entry arrays, sorted unique keys
+        elif r < 0.68:   # well-formed entries with repeated keys, any order: the last one wins
+            ks = [rng.choice(["a", "b", "a", "zz"]) for _ in range(rng.randint(2, 5))]
+            x = ja([jo([(rng.choice(["key", "key", "name", "Key"]), js(k)),
+                        (rng.choice(["value", "value", "Value"]), ji(i))]) for i, k in enumerate(ks)])
+            cases.append(mk("from_entries", {"fn": "from_entries"}, {"fn": "to_entries"}, x))
+        elif r < 0.78:   # canonical entry arrays, sorted unique keys
             ks = sorted({rng.choice(keys) for _ in range(rng.randint(0, 4))}, key=lambda k: k.encode())
             x = ja([jo([("key", js(k)), ("value", gen.rand_value(rng, depth=1))]) for k in ks])
             cases.append(mk("from_entries", {"fn": "from_entries"}, {"fn": "to_entries"}, x))
@@ -500,6 +506,70 @@ def gen_tstext(rng, n):
     return cases
 
 
+def rand_ts_fields_text(rng, fmt):
+    """a text in (or near) the layout of one of the four modelled full-precision formats, built from fields:
+    mostly valid, sometimes an impossible date/time, an unusual year, offset, fraction, or white space"""
+    y = rng.choice([1970, 2024, 2000, 1900, 1, 0, 9999, 1969, 2023, rng.randint(0, 9999)])
+    if rng.random() < 0.8:     # a real date and time of day
+        m = rng.randint(1, 12)
+        d = rng.randint(1, 28) if rng.random() < 0.7 else rng.choice([29, 30, 31])
+        hh, mi = rng.randint(0, 23), rng.randint(0, 59)
+        ss = rng.randint(0, 59) if rng.random() < 0.9 else 60
+    else:
+        m = rng.choice([1, 2, 2, 12, 0, 13])
+        d = rng.choice([1, 28, 29, 30, 31, 0, 32])
+        hh = rng.choice([0, 23, 24])
+        mi = rng.choice([0, 59, 60])
+        ss = rng.choice([0, 59, 60, 61])
+    r = rng.random()
+    if r < 0.06:
+        ys = rng.choice(["+10000", "-0001", "+262142", "-262143", "+262143", "-262144", "10000", "+0000", "-0000", "+1", "12345",
+                         "+99999999999", "-2147483649", "+2147483647", "99999999999999999999"])
+    elif r < 0.1:
+        ys = "%d" % y          # not zero-padded
+    else:
+        ys = "%04d" % y
+    two = lambda v: ("%02d" % v) if rng.random() < 0.97 else ("%d" % v)
+    ns = rng.choice([0, 5, 120000000, 123456000, 123456789, 999999999, 100, rng.randrange(10**9)])
+    digits = rng.choice([9, 9, 9, 3, 6, 1, 2, 10, 12])
+    fr = ("%09d" % ns)[:digits] if digits <= 9 else ("%09d" % ns) + "7" * (digits - 9)
+    offs = rng.choice(["+0000", "+00:00", "-0000", "+0130", "-01:30", "+2359", "-23:59", "+0000", "+00:00"]) if rng.random() < 0.8 else \
+        rng.choice(["Z", "UTC", "+2400", "+0060", "z", "utc", "+00", "+0:00", " +00:00", "+00 00", "+00::00", "", "+000", "\u22120100"])
+    sep = "T"
+    if fmt == "%Y-%m-%d %H:%M:%S.%f":
+        sep = rng.choice([" ", " ", " ", "  ", "T", ""])
+        frac = "." + fr if rng.random() < 0.92 else rng.choice(["", ".", fr])
+        offs = "" if rng.random() < 0.93 else rng.choice(["Z", "+0000", " "])
+    else:
+        if fmt == "%+":
+            sep = rng.choice(["T", "T", "t", " ", "  ", "_", ""])
+        frac = "." + fr if rng.random() < 0.8 else rng.choice(["", ".", "," + fr])
+    date = ys + "-" + two(m) + "-" + two(d)
+    time_ = two(hh) + ":" + two(mi) + ":" + two(ss)
+    if rng.random() < 0.06:     # white space inside (accepted before numbers; around separators only by %+)
+        date = date.replace("-", rng.choice(["- ", " -"]), 1)
+    if rng.random() < 0.05:
+        time_ = time_.replace(":", rng.choice([": ", " :"]), 1)
+    text = date + sep + time_ + frac + offs
+    if rng.random() < 0.05:
+        text += rng.choice([" ", "x", "0"])
+    if rng.random() < 0.03:
+        text = " " + text
+    return text
+
+
+MODELLED_FORMATS = FULL_FORMATS[:4]
+
+
+def gen_parse_ts(rng, n):
+    cases = []
+    for _ in range(n):
+        fmt = rng.choice(MODELLED_FORMATS)
+        x = js(rand_ts_fields_text(rng, fmt)) if rng.random() < 0.97 else gen.rand_scalar(rng)
+        cases.append(mk("parse_ts", {"fn": "parse_timestamp", "fmt": js(fmt)}, None, x))
+    return cases
+
+
 def gen_cases(run, n):
     rng = run.rng
     u = max(1, n // 100)
@@ -513,6 +583,7 @@ def gen_cases(run, n):
     cases += gen_unflatten(rng, 6 * u)
     cases += gen_unix(rng, 10 * u)
     cases += gen_tstext(rng, 8 * u)
+    cases += gen_parse_ts(rng, 8 * u)
     return cases
 
 
@@ -569,10 +640,33 @@ def nontrivial(c):
 
 MANIFEST = {
     "level": "proof",
-    "technique": "Coq proofs (induction on digit strings / lists / nested values, Z arithmetic) on hand models of the stdlib "
-                 "conversion pairs + differential correspondence of every call against the compiled VRL functions",
-    "text": "filled in below",
-    "note": "filled in below",
+    "technique": "Coq proofs (induction on digit strings, lists, nested values and permutations; linear integer arithmetic for "
+                 "timestamps and the calendar) on hand models of the eight stdlib conversion pairs + differential "
+                 "correspondence of every single call against the compiled VRL functions (arguments runtime-typed)",
+    "text": "Closed, axiom-free Coq theorems, one family per pair, each over the pair's whole domain: format_int/parse_int for every "
+            "base 2..36 and every i64 except i64::MIN (digit loop ends within its 64 rounds; default-base pair too), where "
+            "i64::MIN is proved to panic in the model (known finding, reproduced on the implementation); ip_ntoa/ip_aton for "
+            "every u32 and every dotted quad; ip_ntop/ip_pton for all 4- and 16-byte strings, through a model of std's IPv4/IPv6 "
+            "Display and FromStr (RFC 5952 '::' compression, every zero-run shape, embedded IPv4) with parse(print a) = a for "
+            "all 2^128 addresses; ip_to_ipv6/ipv6_to_ipv4 on all IPv4-mapped addresses, both compositions; "
+            "to_entries/from_entries for every object; flatten/unflatten for every object whose keys are separator-safe and whose "
+            "nested objects are non-empty (arrays are leaves; any separator; the property's plain wording is proved sufficient for "
+            "one-character separators and refuted for self-overlapping ones: known finding); to/from_unix_timestamp in all four "
+            "units over chrono's whole range (exact from integers; truncation to the unit from timestamps, exact on multiples); "
+            "format/parse_timestamp on four full-precision layouts over chrono's whole range, resting on a proved inverse pair of "
+            "calendar formulas (partial: chrono's strftime interpreter is modelled for these layouts only; %s and %Z formats "
+            "fail on the implementation: known findings). Every model is tied to the code by running each call of ~4.6k (quick) "
+            "generated cases through the real compiler/runtime and through the Gallina definitions (vm_compute); the round-trip "
+            "law itself is also judged on the implementation's answers alone.",
+    "note": "Trusted: Coq kernel + vm_compute; the hand-written models Model/{IntText,Ip,Entries,Flatten,UnixTs,TsText}.v, tied by "
+            "correspondence only (core::net parser/printer, core int parsing, chrono's timestamp arithmetic and the parts of its "
+            "formatter/parser used by the four layouts are modelled from their documented/observed behaviour; the Gregorian "
+            "calendar by the civil-from-days formulas rather than chrono's tables); harness JSON codec; Python generator. Keys "
+            "and separators are byte strings (valid UTF-8 in every generated case; from_utf8_lossy is the identity there). The "
+            "harness is built with overflow checks on (format_int(i64::MIN) panics only there; in release builds -x wraps and "
+            "the text is right). Program timezone is UTC in every case. An empty separator is outside the flatten theorem and "
+            "is never generated: unflatten with \"\" and two or more keys recurses forever (stack overflow). No axioms "
+            "(Print Assumptions: closed for every theorem).",
     "design_ref": "DESIGN.md section 5 C25",
 }
 
